@@ -20,3 +20,5 @@ func TestPropExported(t *testing.T) { propExported.Check(t) }
 func TestPropGenModuli(t *testing.T) { propGenModuli.Check(t) }
 
 func TestPropBootLiteral(t *testing.T) { propBoot.Check(t) }
+
+func TestPropRingCtor(t *testing.T) { propRingCtor.Check(t) }
